@@ -274,7 +274,7 @@ def run_camera(args: tuple[str, int]) -> dict[str, Any]:
     execs = 0
     distinct: set[Any] = set()
     for order in interleavings(streams):
-        for mode in ("frames", "one_chunk", "with_other_state", "two_subscriptions"):
+        for mode in ("frames", "one_chunk", "with_other_state", "two_subscriptions", "spread-2s"):
             if mode != "frames" and execs % 7:  # the chunking variants on every 7th interleaving
                 pass
             s = Sess()
@@ -289,7 +289,14 @@ def run_camera(args: tuple[str, int]) -> dict[str, Any]:
                     msgs.append(pb.CameraImageResponse(key=key, data=data, done=done))
                     if mode == "with_other_state" and c == 0:
                         msgs.append(pb.SensorStateResponse(key=key, state=1.0))
-                s.deliver(msgs, mode == "one_chunk")
+                if mode == "spread-2s":
+                    # a slow link: the chunks arrive two seconds apart (an image takes as long as it takes)
+                    for m in msgs:
+                        s.w.io_chunk(s.sock, s.w.dframe(m))
+                        s.w.drain()
+                        s.w.run_timers(s.w.loop.time() + 2.0)
+                else:
+                    s.deliver(msgs, mode == "one_chunk")
                 execs += 1
                 # reference: per key buffer since the previous completion
                 buf: dict[int, bytes] = {}
